@@ -13,9 +13,9 @@ if os.path.exists(rp):
     out = json.load(open(rp))
 for d in sorted(os.listdir('/verif/seeded')):
     p = '/verif/seeded/' + d
-    if not os.path.isdir(p): continue
+    if not os.path.isdir(p) or not os.path.exists(p + '/patch.diff'): continue
     pid = d.split('-')[0]
-    if want and pid not in want: continue
+    if want and pid not in want and d not in want: continue
     if pid not in PROPS:
         out[d] = dict(status="no-check-yet"); continue
     assert subprocess.run(['git', '-C', '/repo', 'status', '--porcelain'], stdout=subprocess.PIPE, text=True).stdout == '', "repo dirty"
@@ -38,7 +38,7 @@ for d in sorted(os.listdir('/verif/seeded')):
     print(d, out[d]['status'], out[d].get('line', ''), flush=True)
 json.dump(out, open(rp, 'w'), indent=1)
 # the evidence files must describe the UNCHANGED tree: re-run the touched checks on the clean tree
-touched = sorted({d.split('-')[0] for d in out if (not want or d.split('-')[0] in want) and d.split('-')[0] in PROPS})
+touched = sorted({d.split('-')[0] for d in out if (not want or d.split('-')[0] in want or d in want) and d.split('-')[0] in PROPS})
 for pid in touched:
     subprocess.run(['./check.py', pid, 'quick'], cwd='/verif', stdout=subprocess.DEVNULL)
 subprocess.run(['rm', '-rf', '/verif/replays'])
